@@ -86,6 +86,14 @@ def subharnesses(tier):
                     'apps': apps, 'event': ['set_valid_until', 0, 1],
                     'sym_valid_until': True, 'sym_expiry': True}
             subs.append(('%s-D1-A3-%s-leased' % (topo, g1.ptag(pl)), spec))
+            if pl[0] is None:
+                # the instance ahead has the same shape as the running ones
+                # (same lease, no trait) and is unplaceable only because no
+                # server lives long enough for a NEW lease
+                apps2 = [{'place': j, 'lease': 3600} for j in pl]
+                spec2 = dict(spec, apps=apps2)
+                subs.append(('%s-D1-A3-%s-leased_same_shape' % (
+                    topo, g1.ptag(pl)), spec2))
     # the utilisation cap of an allocation is withdrawn (allocations event):
     # instances that were beyond it are ordinary running instances again
     for pl in [(None, 0, 1), (None, 0, 0), (0, 1, None)]:
